@@ -1,6 +1,6 @@
 SPECIFICATION Spec
 CONSTANTS MaxBlock = 3 MaxOps = 7 MaxLen = 7
-  Ms = {0, 1, 2}
+  Ms = {1, 2, 9}
   Takes = {0, 1}
   Srcs = {"iter", "list"}
   SplitBufs <- SplitBufsQuick
@@ -18,6 +18,7 @@ INVARIANT AfterRequest
 INVARIANT OneBlock
 INVARIANT SecondRequestEmpty
 INVARIANT SplitEqRun
+INVARIANT SplitPerBuffer
 INVARIANT SeqEqRun
 INVARIANT Emitted
 CHECK_DEADLOCK FALSE
